@@ -45,7 +45,7 @@ theorem progress (cfg : ParseCfg) (bs : Bytes) (t : TLV) (rest : Bytes)
     of `Asn1.Ty.reg`, which in indefinite mode excludes finding E1) is consumed exactly — the value
     comes back and the tail is returned untouched, whatever it is -/
 theorem encoding_then_tail (defMode : Bool) (maxChunk : Nat) (t : Ty) (v : Val) (b tail : Bytes)
-    (hreg : t.reg Generated.berEnc defMode = true) (hwf : t.WF = true) (hty : HasType t v = true)
+    (hreg : t.reg false Generated.berEnc defMode = true) (hwf : t.WF = true) (hty : HasType t v = true)
     (h : encItem Generated.berEnc { defMode := defMode, maxChunk := maxChunk } t v = .ok b) :
     decodeOne Generated.berDecByType t (b ++ tail) = .ok (v, tail) :=
   roundtrip_item Generated.berEnc Generated.berDecByType { defMode := defMode, maxChunk := maxChunk }
@@ -55,8 +55,8 @@ theorem encoding_then_tail (defMode : Bool) (maxChunk : Nat) (t : Ty) (v : Val) 
 /-- two encodings back to back: the first decode leaves exactly the second encoding, which then
     decodes to the second value with nothing left -/
 theorem two_encodings (defMode : Bool) (maxChunk : Nat) (t1 t2 : Ty) (v1 v2 : Val) (b1 b2 : Bytes)
-    (hr1 : t1.reg Generated.berEnc defMode = true) (hw1 : t1.WF = true) (ht1 : HasType t1 v1 = true)
-    (hr2 : t2.reg Generated.berEnc defMode = true) (hw2 : t2.WF = true) (ht2 : HasType t2 v2 = true)
+    (hr1 : t1.reg false Generated.berEnc defMode = true) (hw1 : t1.WF = true) (ht1 : HasType t1 v1 = true)
+    (hr2 : t2.reg false Generated.berEnc defMode = true) (hw2 : t2.WF = true) (ht2 : HasType t2 v2 = true)
     (h1 : encItem Generated.berEnc { defMode := defMode, maxChunk := maxChunk } t1 v1 = .ok b1)
     (h2 : encItem Generated.berEnc { defMode := defMode, maxChunk := maxChunk } t2 v2 = .ok b2) :
     decodeOne Generated.berDecByType t1 (b1 ++ b2) = .ok (v1, b2) ∧
